@@ -50,7 +50,10 @@ panic, exactly when it does:
   numeric bucket fill with the `== end` break ends within `end − start + 1` steps and never
   overflows for every pair of `i64` ends; `date_fill_terminates` — with a step of at least
   1 ms (`dateStepOk`) the date fill leaves within `end − start + 1` iterations; legacy:
-  `legacy_zero_step_never_ends`, `hist_fill_witnesses`.
+  `legacy_zero_step_never_ends`, `hist_fill_witnesses`; `bucketStart_checked` — every
+  intermediate of the date bucket arithmetic (since d7457e1) is inside the `i64` range,
+  `dateFinish_spec` — the fill runs only when both bounds have a bucket; legacy:
+  `bucket_start_witnesses`.
 * **minimum_should_match** (`Core/Msm`): the `&pct[..len-1]` slice is always on a char
   boundary (`msm_no_panic`), the result never exceeds the term count (`msm_le_termCount`).
 
@@ -763,6 +766,52 @@ theorem legacy_zero_step_never_ends (n : Nat) (start stop : Int) (h : start ≤ 
     dateFill 0 n start stop 0 = none :=
   dateFill_zero_never n start stop 0 h hi
 
+
+/-- **the date bucket arithmetic never overflows**: whenever `bucket_start` yields a key, the
+shifted value, the product and the key itself are all inside the `i64` range (each step is a
+checked operation), whatever the float step `q` returns -/
+theorem bucketStart_checked (q : Int → Int → Int) (value offset step r : Int)
+    (h : bucketStart q value offset step = some r) :
+    inI64 (value - offset) = true ∧ inI64 (clamp (q (value - offset) step) * step) = true ∧ inI64 r = true ∧
+    r = clamp (q (value - offset) step) * step + offset := by
+  unfold bucketStart checked at h
+  split at h
+  · simp at h
+  · rename_i d hd
+    split at hd
+    · rename_i h1
+      simp only [Option.some.injEq] at hd
+      subst hd
+      split at h
+      · simp at h
+      · rename_i p hp
+        split at hp
+        · rename_i h2
+          simp only [Option.some.injEq] at hp
+          subst hp
+          split at h
+          · rename_i h3
+            simp only [Option.some.injEq] at h
+            subst h
+            exact ⟨h1, h2, h3, rfl⟩
+          · simp at h
+        · simp at hp
+    · simp at hd
+
+/-- the fill of `finish` runs only when both bounds have a bucket, and then — with a step of
+at least one millisecond — it ends -/
+theorem dateFinish_spec (q : Int → Int → Int) (step offset lo hi : Int) (hs : dateStepOk step = true) :
+    (dateFinish q step offset lo hi 0 = none ↔
+      (bucketStart q lo offset step = none ∨ bucketStart q hi offset step = none)) ∧
+    (∀ a b, bucketStart q lo offset step = some a → bucketStart q hi offset step = some b →
+      ∃ r, dateFinish q step offset lo hi ((max a b - min a b).toNat + 2) = some (some r)) := by
+  constructor
+  · unfold dateFinish
+    cases bucketStart q lo offset step <;> cases bucketStart q hi offset step <;> simp
+  · intro a b ha hb
+    obtain ⟨r, hr⟩ := date_fill_terminates step (min a b) (max a b) hs
+    exact ⟨r, by simp [dateFinish, ha, hb, hr]⟩
+
 end HistFillS
 
 /-- LEGACY NEGATIVE WITNESSES (decide): bounds `{min: 1e300, max: 1e300}` saturate both ends
@@ -778,6 +827,20 @@ theorem hist_fill_witnesses :
     SL.HistFill.dateFill 0 50 0 10000 0 = none ∧
     SL.HistFill.dateFill 1 50 0 10 0 = some (.past 11) ∧
     SL.HistFill.dateFill 5 50 (SL.HistFill.i64Max - 7) SL.HistFill.i64Max 0 = some (.addOverflow 2) := by
+  decide
+
+/-- LEGACY NEGATIVE WITNESSES for `bucket_start` (decide; `q` = exact ceiling division):
+bound `"-9.3e18"` (saturated to `i64::MIN`) with offset `30m` and step `1d` — the original
+subtracts with overflow; bound `"9.3e18"` (`i64::MAX`), step `1w`, offset 10^18 ms — it adds
+with overflow; the checked version has no bucket for either -/
+theorem bucket_start_witnesses :
+    SL.HistFill.legacyBucketStart SL.HistFill.ceilDiv SL.HistFill.i64Min 1800000 86400000 = .subOverflow ∧
+    SL.HistFill.bucketStart SL.HistFill.ceilDiv SL.HistFill.i64Min 1800000 86400000 = none ∧
+    SL.HistFill.legacyBucketStart SL.HistFill.ceilDiv SL.HistFill.i64Max 1000000000000000000 604800000 = .addOverflow ∧
+    SL.HistFill.bucketStart SL.HistFill.ceilDiv SL.HistFill.i64Max 1000000000000000000 604800000 = none ∧
+    SL.HistFill.bucketStart SL.HistFill.ceilDiv 10000 0 1000 = some 10000 ∧
+    SL.HistFill.dateFinish SL.HistFill.ceilDiv 1000 0 0 10000 20 = some (some (.past 11)) ∧
+    SL.HistFill.dateFinish SL.HistFill.ceilDiv 86400000 1800000 SL.HistFill.i64Min 0 20 = none := by
   decide
 
 /-! ## minimum_should_match -/
